@@ -25,6 +25,14 @@
 (* expression, signed, as keys of the map, as images and as bystanders.  Blanks are    *)
 (* not tokens: the driver renders every expression in several layouts (dense, spaced, *)
 (* untokenize style, blank-padded at both ends) and each must give the same tokens.   *)
+(*                                                                                    *)
+(* Line structure.  The tokenizer does report two kinds of line ends, and so does this *)
+(* specification: NL, a line break inside brackets (after a comma, a binary operator   *)
+(* or the opening bracket: `[a, b,<NL> c]`, `(a<NL> + b)`, `f(a,<NL> b)`) which does   *)
+(* not end the expression, and NEWLINE, which separates the complete equations of a    *)
+(* block (`y = x<NEWLINE>x = 2`).  Both are tokens [kind, "NL"] of the sequence; no    *)
+(* renaming touches them.  A backslash continuation is no token: it is a layout of the *)
+(* driver, like blanks.                                                                *)
 EXTENDS Integers, Sequences, FiniteSets, TLC
 
 CONSTANTS
@@ -37,12 +45,16 @@ CONSTANTS
     MaxUnits,       \* budget of Push/Lag steps (closing brackets are free)
     MinUnits,       \* calls are made on expressions of at least this many steps (0 except in -simulate)
     MaxDepth,       \* bound on bracket nesting
+    MaxNL,          \* bound on line breaks inside brackets (NL tokens); 0: none
+    MaxLines,       \* bound on the number of logical lines (NEWLINE separated); 1: a single expression
     MaxActs,        \* number of Rename/RenameOne/ListNames calls on one expression
     Signs,          \* unary sign texts usable before an operand: subset of {"-", "+"}
     AllowCall, AllowList, AllowGroup, AllowLag
 
 Tok(k, t) == [kind |-> k, text |-> t]
 IsName(t) == t.kind = "NAME"
+TokNL == Tok("NL", "NL")                \* line break inside brackets
+TokNewline == Tok("NEWLINE", "NL")      \* end of a logical line that is followed by another one
 
 ----------------------------------------------------------------------------
 (* two fixed integer valuations of every name the instances use *)
@@ -65,13 +77,14 @@ IntLits == {"1", "0x1f", "2"}
 ArithOps == {"+", "-", "*"}
 
 ----------------------------------------------------------------------------
-(* grammar: st = [toks, stack, expect, units]                                *)
+(* grammar: st = [toks, stack, expect, units, nl, lines]                     *)
 (*   expect: "operand"  an operand (or a unary sign, or an opening bracket)  *)
 (*           "first"    as "operand", or the closing bracket of f() / []     *)
 (*           "nounary"  an operand, no further unary sign                    *)
 (*           "operator" a binary operator, a comma, a closer, a call, a lag  *)
 (*   stack: sequence of "call" / "list" / "group"                            *)
-St0 == [toks |-> << >>, stack |-> << >>, expect |-> "operand", units |-> 0]
+(*   nl, lines: NL tokens pushed so far / logical lines begun so far         *)
+St0 == [toks |-> << >>, stack |-> << >>, expect |-> "operand", units |-> 0, nl |-> 0, lines |-> 1]
 
 Top(st) == st.stack[Len(st.stack)]
 Pop(s) == SubSeq(s, 1, Len(s) - 1)
@@ -81,7 +94,17 @@ Closer(sym) == IF sym = "list" THEN "]" ELSE ")"
 WantsOperand(st) == st.expect \in {"operand", "first", "nounary"}
 IsSign(t) == t.kind = "OP" /\ t.text \in Signs
 
+LastTok(st) == st.toks[Len(st.toks)]
+
 CanPush(st, t) ==
+    \/ /\ t = TokNL                      \* inside brackets, after a comma / binary operator / opening bracket
+       /\ st.nl < MaxNL
+       /\ WantsOperand(st) /\ st.expect # "nounary"
+       /\ st.stack # << >>
+       /\ st.toks # << >> /\ LastTok(st).kind = "OP"
+    \/ /\ t = TokNewline                 \* a complete equation ends, another one follows
+       /\ st.lines < MaxLines
+       /\ st.expect = "operator" /\ st.stack = << >>
     \/ /\ WantsOperand(st)
        /\ \/ t.kind = "NAME" /\ t.text \in Names
           \/ t.kind = "NUMBER" /\ t.text \in Numbers
@@ -97,20 +120,22 @@ CanPush(st, t) ==
           \/ st.stack # << >> /\ t = Tok("OP", Closer(Top(st)))
 
 IsCloser(st, t) == st.stack # << >> /\ t = Tok("OP", Closer(Top(st)))
-Cost(st, t) == IF IsCloser(st, t) THEN 0 ELSE 1
+Cost(st, t) == IF IsCloser(st, t) \/ t = TokNL \/ t = TokNewline THEN 0 ELSE 1
 
 PushOp(st, t) ==
     LET ts == Append(st.toks, t)
         u  == st.units + Cost(st, t)
-    IN IF IsCloser(st, t)
-         THEN [toks |-> ts, stack |-> Pop(st.stack), expect |-> "operator", units |-> u]
+        Mk(stk, ex) == [st EXCEPT !.toks = ts, !.stack = stk, !.expect = ex, !.units = u]
+    IN IF t = TokNL THEN [st EXCEPT !.toks = ts, !.nl = @ + 1]
+       ELSE IF t = TokNewline THEN [st EXCEPT !.toks = ts, !.expect = "operand", !.lines = @ + 1]
+       ELSE IF IsCloser(st, t) THEN Mk(Pop(st.stack), "operator")
        ELSE IF WantsOperand(st)
-         THEN CASE IsSign(t)          -> [toks |-> ts, stack |-> st.stack, expect |-> "nounary", units |-> u]
-                [] t = Tok("OP", "[") -> [toks |-> ts, stack |-> Append(st.stack, "list"), expect |-> "first", units |-> u]
-                [] t = Tok("OP", "(") -> [toks |-> ts, stack |-> Append(st.stack, "group"), expect |-> "operand", units |-> u]
-                [] OTHER              -> [toks |-> ts, stack |-> st.stack, expect |-> "operator", units |-> u]
-       ELSE CASE t = Tok("OP", "(") -> [toks |-> ts, stack |-> Append(st.stack, "call"), expect |-> "first", units |-> u]
-              [] OTHER              -> [toks |-> ts, stack |-> st.stack, expect |-> "operand", units |-> u]
+         THEN CASE IsSign(t)          -> Mk(st.stack, "nounary")
+                [] t = Tok("OP", "[") -> Mk(Append(st.stack, "list"), "first")
+                [] t = Tok("OP", "(") -> Mk(Append(st.stack, "group"), "operand")
+                [] OTHER              -> Mk(st.stack, "operator")
+       ELSE CASE t = Tok("OP", "(") -> Mk(Append(st.stack, "call"), "first")
+              [] OTHER              -> Mk(st.stack, "operand")
 
 (* the lag suffix  x(k-1)  as one step *)
 LagSuffix == << Tok("OP", "("), Tok("NAME", "k"), Tok("OP", "-"), Tok("NUMBER", "1"), Tok("OP", ")") >>
@@ -123,6 +148,7 @@ Complete(st) == st.stack = << >> /\ st.expect = "operator"
 Alphabet == { Tok("NAME", n) : n \in Names } \cup { Tok("NUMBER", n) : n \in Numbers }
             \cup { Tok("STRING", s) : s \in Strings }
             \cup { Tok("OP", o) : o \in BinOps \cup Signs \cup {"(", ")", "[", "]", ","} }
+            \cup (IF MaxNL > 0 THEN {TokNL} ELSE {}) \cup (IF MaxLines > 1 THEN {TokNewline} ELSE {})
 
 (* membership of a whole token sequence in the grammar (used by the trace spec): the   *)
 (* lag suffix is accepted through the call rule when k, "-" and 1 are in the alphabet. *)
@@ -151,11 +177,13 @@ SubstOneOp(ts, a, b) == SubstOp(ts, << [from |-> a, to |-> b] >>)
 (* list_tokens *)
 NamesOp(ts) == LET ns == SelectSeq(ts, IsName) IN [i \in 1..Len(ns) |-> ns[i].text]
 
-(* what tokenize.untokenize makes of (type, text) pairs: a blank after NAME and NUMBER *)
+(* what tokenize.untokenize makes of (type, text) pairs: a blank after NAME and NUMBER, *)
+(* line ends kept (written <NL> here and by the driver)                                *)
 RECURSIVE UntokText(_)
 UntokText(ts) ==
     IF ts = << >> THEN ""
-    ELSE Head(ts).text \o (IF Head(ts).kind \in {"NAME", "NUMBER"} THEN " " ELSE "") \o UntokText(Tail(ts))
+    ELSE (IF Head(ts).kind \in {"NL", "NEWLINE"} THEN "<NL>" ELSE Head(ts).text)
+         \o (IF Head(ts).kind \in {"NAME", "NUMBER"} THEN " " ELSE "") \o UntokText(Tail(ts))
 
 ----------------------------------------------------------------------------
 (* value of the arithmetic fragment: names, integer literals, + - * (unary signs        *)
@@ -309,4 +337,5 @@ TypeOK == /\ mode \in {"build", "done"}
           /\ st.units <= MaxUnits
           /\ Len(st.stack) <= MaxDepth
           /\ Len(acts) <= MaxActs
+          /\ st.nl <= MaxNL /\ st.lines <= MaxLines
 =============================================================================
